@@ -512,6 +512,68 @@ def validate_table_reader(run, n=150):
     return len(cases)
 
 
+def validate_cli_species(run, n=120):
+    """the regenerated species choice of potable's `_do_tabulation` (which list, which mode, or no view at all) against the real function behind the real argument parser:
+    `--include-species` / `--exclude-species` with no, one or several labels, or neither; the call of `_make_config_parser` is intercepted and its last two arguments compared"""
+    import sys as _sys
+    import atsim.potentials.tools.potable as pt
+    ok, log = build_gen()
+    if not ok:
+        run.tie_broken("translator", "Gen/Logic.lean (species choice)", "the regenerated definitions (or their driver) do not build: " + log[-600:])
+        return 0
+    rng = run.rng
+    labels = ["Al", "O", "O2-", "Cu", "Pu"]
+    cases = []
+    for _ in range(n):
+        r = rng.random()
+        if r < 0.2:
+            cases.append((None, None))
+        elif r < 0.6:
+            cases.append((rng.sample(labels, rng.randint(0, 3)), None))
+        else:
+            cases.append((None, rng.sample(labels, rng.randint(0, 3))))
+    answers = query_gen([dict(op="cli_species", include=i, exclude=e) for i, e in cases])
+
+    class _Stop(Exception):
+        pass
+    captured = {}
+
+    def _capture(cfg_file, overrides, additional, remove, species, exclude_flag):
+        captured["v"] = [species, bool(exclude_flag)]
+        raise _Stop()
+    orig, old_argv = pt._make_config_parser, _sys.argv
+    bad = 0
+    try:
+        pt._make_config_parser = _capture
+        for (inc, exc), ans in zip(cases, answers):
+            argv = ["potable", os.devnull, "OUT"]
+            if inc is not None:
+                argv += ["--include-species"] + inc
+            if exc is not None:
+                argv += ["--exclude-species"] + exc
+            _sys.argv = argv
+            parser, args = pt._parse_command_line()
+            try:
+                pt._do_tabulation(parser, args)
+                real = "no-call"
+            except _Stop:
+                real = captured["v"]
+            finally:
+                try:
+                    args.config_file.close()
+                except Exception:
+                    pass
+            run.traces += 1
+            run.dist["translator-validation/cli_species"] += 1
+            if real != ans:
+                bad += 1
+                if bad <= 2:
+                    run.tie_broken("translator", "generated species choice vs _do_tabulation", "%s: real %s generated %s" % (argv[3:], real, ans))
+    finally:
+        pt._make_config_parser, _sys.argv = orig, old_argv
+    return len(cases)
+
+
 def validate_cli_operations(run, n=200):
     """the regenerated command-line layer (_create_override_tuple, _item_id, the ordered dictionary of _make_config_parser) against the real function, whose final
     `ConfigParser(...)` call is intercepted: the two lists it is handed are compared (options with ':' and '=' in sections and values, whitespace variants of keys,
